@@ -91,3 +91,7 @@ Example C10_swap_nan_is_error :
   run_case "Array" l123 "method" "交换" [N 9221120237041090560; N 4607182418800017408]
   = [[0; 40]; [4; 3; 2; 4607182418800017408; 2; 4611686018427387904; 2; 4613937818241073152]].
 Proof. vm_compute. reflexivity. Qed.
+Example C10_slice_counts_characters :   (* 以“中a😀”（取样：1、1） = “中” *)
+  run_case "String" (VStr [228;184;173;97;240;159;152;128]) "method" "取样" [N 4607182418800017408; N 4607182418800017408]
+  = [[3; 3; 3; 228; 184; 173]; [3; 8; 228; 184; 173; 97; 240; 159; 152; 128]].
+Proof. vm_compute. reflexivity. Qed.
